@@ -1,13 +1,40 @@
 """C16 — a for loop equals its unrolling."""
+import itertools
+
+from bounded.contract_enum import run_contract_enum
 from checks.common import CheckRun
 
 EXPLANATION = (
     "P tier: the iteration value sequence (ForStmt.get_iteration_values) is proved for all (start, stop, step) "
-    "triples and list iterators with inductive loop invariants and variants (unbounded)."
+    "triples and list iterators with inductive loop invariants and variants (unbounded). B tier (bounded): the same "
+    "contract evaluated on the real function over a box of triples (stand-in if the function drifts out of the "
+    "verifier's subset), and loop programs compiled end to end and compared with the S3 unrolling semantics."
 )
 
 
+def _giv_args(bound):
+    from bounded.pipeline import ensure_repo
+    ensure_repo()
+    from dsl_compiler.src.ast.statements import ForStmt
+    out = []
+    rng = range(-bound, bound + 1)
+    for a, b in itertools.product(rng, rng):
+        for s in list(rng) + [None]:
+            out.append({"self": ForStmt("i", a, b, s, None, []), "constant_resolver": None})
+    for vals in ([], [3], [5, -1, 5], [0, 0], [7, 8, 9, 10]):
+        out.append({"self": ForStmt("i", None, None, None, list(vals), []), "constant_resolver": None})
+    table = {"a": 2, "b": -3, "c": 0, "d": 7}
+    for a, b, s in itertools.product(["a", "b", 1], ["d", "c", 4], ["a", "b", None]):
+        out.append({"self": ForStmt("i", a, b, s, None, []), "constant_resolver": table.__getitem__})
+    out.append({"self": ForStmt("i", "a", 3, None, None, []), "constant_resolver": None})
+    return out
+
+
 def run(tier):
+    from contracts import c16
     cr = CheckRun("C16", tier, "other", EXPLANATION, "DESIGN §4 C16")
     cr.contracts(["contracts.c16"])
+    bound = 6 if tier == "quick" else 12
+    cr.bounded_check(run_contract_enum, "get_iteration_values-box", c16.giv_contract, _giv_args(bound),
+                     f"all (start, stop, step) in [-{bound},{bound}]^2 x ([-{bound},{bound}] + default), list iterators, variable bounds through a resolver")
     return cr.finish()
